@@ -446,6 +446,51 @@ def h_ls_program(nk: int, z0: int, z1: int, gap0: int, gap1: int, base: int, des
     return 1
 
 
+RO_MODES = ["Forward End", "Forward Release", "Oneshot", "Forward Oneshot", "Alternate", "Reverse Oneshot", "Reverse Loop"]
+RO_FREQ = [48000, 44100, 24000, 22050, 30000, 15000]
+RO_COARSE = [0, 1, 0xFF, 0x100, 0x1234, 0xFFFF, 0x10000, 0x7FFFFF, 0x800000, 0xFFFFFF]
+RO_FINE = [0, 1, 0x7F, 0x80, 0xFE, 0xFF]
+RO_POINTS = ["start_sample", "sustain_loop_start", "sustain_loop_end", "release_loop_start", "release_loop_end"]
+
+
+def h_ls_roland(mode: int, freq: int, smode: int, rot: int, slot: int, ver: int) -> int:
+    """
+    pre: 0 <= mode <= 6 and 0 <= freq <= 5 and 0 <= smode <= 1 and 0 <= rot <= 9 and 0 <= slot <= 2 and 1 <= ver <= 2
+    post: _ == 1
+    """
+    CNT[0] += 1
+    mode, freq, smode, rot, slot, ver = conc(mode, 0, 6), conc(freq, 0, 5), conc(smode, 0, 1), conc(rot, 0, 9), conc(slot, 0, 2), conc(ver, 1, 2)
+    with untraced():
+        import io
+        from vf import rolandw
+        from vf.props import c02, c16
+        import smpl_extract.actions as actions
+        coarse = [RO_COARSE[(rot + 3 * j) % len(RO_COARSE)] for j in range(5)]          # five different values, every class of width reached
+        fine = [RO_FINE[(rot + j) % len(RO_FINE)] for j in range(5)]
+        tunes = ((rot * 37 + 1) % 256, (rot * 53 + 7) % 256, (rot * 91 + 11) % 256)
+        names = ["Smp0", "Smp1", "Smp2"]
+        samples = [dict(name=n, words=c02._words(300 + 10 * i, i + 1), mode=(mode + i + 1) % 7, freq_code=(freq + i + 1) % 6) for i, n in enumerate(names)]
+        samples[slot] = dict(name=names[slot], words=c02._words(300, 9), mode=mode, freq_code=freq, sample_mode=smode, fine=fine, tunes=tunes, key=36 + rot,
+                             start=coarse[0], sustain_start=coarse[1], sustain_end=coarse[2], release_start=coarse[3], release_end=coarse[4])
+        img = rolandw.build({"volumes": [("VolA", [0])], "performances": [("Perf0", [0])], "patches": [("Patch0", [0])], "partials": [("Part0", [0, 1, 2])],
+                             "samples": samples, "fat_version": ver})
+        image = actions.determine_image_type(io.BufferedReader(io.BytesIO(img)))
+        text = c16._do(image, ("ls", "VolA/Perf0/" + names[slot]))[1]
+        kv, stack = {}, []
+        for depth, k, v in _parse_listing(text):
+            stack = stack[:depth] + [k]
+            kv[".".join(stack)] = v
+        want = {"sample_mode": ("Mono", "Stereo")[smode], "sampling_frequency": str(RO_FREQ[freq]), "loop_mode": RO_MODES[mode],
+                "sustain_loop_enable": str(tunes[0]), "sustain_loop_tune": str(tunes[1]), "release_loop_tune": str(tunes[2])}
+        for j, pt in enumerate(RO_POINTS):
+            want[pt + ".fine"] = str(fine[j])
+            want[pt + ".address"] = str(coarse[j])
+        for k, v in want.items():
+            if kv.get(k) != v:
+                return 0
+    return 1
+
+
 def h_ls_cdda(f0: int, df: int, tail: int) -> int:
     """
     pre: 0 <= f0 <= 3 and 1 <= df <= 4 and 0 <= tail <= 2351
@@ -536,6 +581,10 @@ def obligations(tier, seed):
     for nk in (1, 2):
         obs.append(ob(f"C20.ls/akai-program/keygroups={nk}", "h_ls_program", [f"nk == {nk}"] + (["base <= 1"] if q else []),
                       "active zones per keygroup (0..4), gaps before/between keygroups, value base", "1..2 keygroups linked through arbitrary next addresses"))
+    for mode in range(7):
+        obs.append(ob(f"C20.ls/roland-sample/loop-mode={mode}", "h_ls_roland", [f"mode == {mode}"],
+                      "frequency code, sample mode, the five loop points (coarse 24 bit, fine 8 bit), tunes, slot, FAT version",
+                      "width-class values per field; 3 samples; whole S-770 image through ls"))
     obs.append(ob("C20.ls/cdda-track", "h_ls_cdda", [], "index positions, stray tail bytes", "2 tracks"))
     obs.append(ob("C20.print", "h_print", [], "three field values", "6 values each"))
     return obs
